@@ -39,6 +39,10 @@ structure Row where
   kind : Kind
   name : String
   rets : List Ret
+  /-- recycled storage the accessor (or a callee) writes IN PLACE: context fields reused through
+      `append(f[:0], …)`, `f = x[:0]`, `clear`/`delete`/`copy`/element assignment, and fasthttp objects
+      changed through a mutator (`fasthttp.SetBodyRaw` …). Only extracted for `ctx` / `generic` rows. -/
+  writes : List String := []
   deriving DecidableEq, Repr, Inhabited
 
 end C06
